@@ -36,11 +36,7 @@ func verifC02Content(c *xlsxC, sst []xlsxSI) string {
 	v := c.V
 	if c.T == "s" {
 		if i, err := strconv.Atoi(strings.TrimSpace(c.V)); err == nil && i >= 0 && i < len(sst) {
-			if sst[i].T != nil { // the stored text, not its bstrUnmarshal reading (C01/C03)
-				v = sst[i].T.Val
-			} else {
-				v = sst[i].String()
-			}
+			v = sst[i].String() // the text as every reader sees it (the table stores it escaped)
 		} else {
 			v = "?" + c.V
 		}
